@@ -150,7 +150,7 @@ class Run:
             if rc != 0 or not done or int(done.group(1)) != cnt:
                 raise MachineryError("trace validation %s did not examine every event of %s (rc=%d):\n%s" % (spec, path, rc, tail(out)))
             fl = []
-            for m in re.finditer(r'<<"VFAIL", (\d+), <<(.*?)>>>>', out):
+            for m in re.finditer(r'<<\s*"VFAIL",\s*(\d+),\s*<<(.*?)>>\s*>>', out, re.S):
                 clauses = re.findall(r'"([^"]+)"', m.group(2))
                 fl.append((base + int(m.group(1)) - 1, clauses))
             return gen, dist, fl
